@@ -1035,6 +1035,33 @@ async fn check_order(
                     ),
                 ));
             } else {
+                // the standard spelling of the same cut: OFFSET m ROWS FETCH FIRST n ROWS ONLY
+                if let Some(n) = q.limit {
+                    let off = match q.offset {
+                        Some(m) => format!(" OFFSET {m} ROWS"),
+                        None => String::new(),
+                    };
+                    let fetch = format!("{}{off} FETCH FIRST {n} ROWS ONLY", ordered.sql());
+                    let f = db.exec(&fetch).await;
+                    cx.stats.evaluations += 1;
+                    match f.rows() {
+                        Some(frow) if key_proj(frow, &keys) != got => {
+                            cx.violate(Violation::new(
+                                "C12",
+                                "fetch-first-slice-wrong",
+                                Some(at),
+                                format!(
+                                    "{fetch}: keys [{}], the LIMIT spelling returns [{}]",
+                                    rows_brief(&key_proj(frow, &keys), 16),
+                                    rows_brief(&got, 16)
+                                ),
+                            ));
+                            return;
+                        }
+                        Some(_) => cx.probe("fetch-first-checked"),
+                        None => cx.probe("fetch-first-query-failed"),
+                    }
+                }
                 // a filter on top of the limited query must not reach below the LIMIT: compare
                 // with the limited result filtered here (on the first sort key, so that ties at
                 // the cut do not matter)
